@@ -368,7 +368,7 @@ impl Check for C04 {
         out
     }
     fn rule() -> &'static str {
-        "Each run draws a composable pair (f,g), two labelled cospans x,y with matching boundary types (non-injective / non-surjective legs, empty node sets; with probability 1/5 resp. 1/8 a claimed leg codomain is corrupted: off by one either way or zero) and two object lists. On each configuration (sim/control, vec, vec/lax, 1-3 perturbed schedules): dagger swaps interfaces exactly and is an involution exactly; (f;g)† ≅ g†;f†; (f⊗g)† ≅ f†⊗g†; spider/half_spider accepted iff both legs land in the node list; spider ≅ its discrete cospan; spider;spider ≅ reference cospan composition; identity and symmetry ≅ the corresponding spiders. Non-trivial iff f or x has a node; distinct = distinct (workload fingerprint, device decision fingerprint) pairs."
+        "Each run draws a composable pair (f,g), two labelled cospans x,y with matching boundary types (non-injective / non-surjective legs, empty node sets; with probability 1/5 resp. 1/8 a claimed leg codomain is corrupted: off by one either way or zero) and two object lists. On each configuration (sim/control, vec, vec/lax, 1-3 perturbed schedules): dagger swaps interfaces exactly and is an involution exactly; (f;g)† ≅ g†;f†; (f⊗g)† ≅ f†⊗g†; spider/half_spider accepted iff both legs land in the node list; spider ≅ its discrete cospan; spider;spider ≅ reference cospan composition; identity and symmetry ≅ the corresponding spiders (strict and lax); the lax law instances are also evaluated on operands that still carry pending unifications (unquotiented composites on either side of compose / tensor); source and target types are also read through the Arrow trait. Non-trivial iff f or x has a node; distinct = distinct (workload fingerprint, device decision fingerprint) pairs."
     }
     fn assumptions() -> Vec<&'static str> {
         vec![
